@@ -239,7 +239,7 @@ func c19Apply(e *Env, o c19Op) string {
 		q := func(v int64) string { return fmt.Sprintf("%q", fmt.Sprint(v)) }
 		outs := []string{
 			set("jklmint", "MintDenom", fmt.Sprintf("%q", []string{"", "stake", "ujkl", " "}[o.N%4])),
-			set("jklmint", "DevGrantsRatio", q(8-o.N%3)), set("jklmint", "StakerRatio", q(80+o.N%3)),
+			set("jklmint", "DevGrants", q(8-o.N%3)), set("jklmint", "StakerRatio", q(80+o.N%3)),
 			set("storage", "ProofWindow", q(1+o.N%7)), set("storage", "CheckWindow", q(1+o.N%5)), set("storage", "ChunkSize", q(1+o.N%4096)),
 			set("storage", "POLRatio", q([]int64{0, 40, 80, 99, 100}[o.N%5])), set("storage", "Referrals", q([]int64{25, 0, 50, 100}[o.N%4])),
 		}
